@@ -66,7 +66,8 @@ def gen_mod(rng) -> dict:
     base = rng.choice([2, 3])
     cls = rng.choice(["Clinical", "Pathological"] + (["Modality"] if base == 2 else []))
     sp, sn = gen.gen_value(rng), gen.gen_value(rng)
-    edit = rng.choice(["same", "spec", "sens", "both", "kind", "kind", "kindcompl", "kindcompl", "kindvalue", "swap"])
+    edit = rng.choice(["same", "spec", "sens", "both", "kind", "kind", "kindcompl", "kindcompl", "kindvalue", "swap",
+                       "sens_to_spec", "spec_to_sens"])
     a = [cls, sp, sn]
     b = [cls, sp, sn]
     flip = {"Clinical": "Pathological", "Pathological": "Clinical", "Modality": "Pathological"}
@@ -88,7 +89,13 @@ def gen_mod(rng) -> dict:
         b[rng.choice([1, 2])] = dy(rng)
     elif edit == "swap":                 # spec and sens exchanged
         b = [cls, sn, sp]
+    elif edit == "sens_to_spec":         # the new sensitivity equals the CURRENT specificity (and vice versa below):
+        b = [cls, sp, sp]                # an edit that a setter comparing with the wrong field would take for "unchanged"
+    elif edit == "spec_to_sens":
+        b = [cls, sn, sn]
     via = rng.choice(["ctor", "ctor", "setter", "model"])
+    if edit in ("sens_to_spec", "spec_to_sens"):
+        via = "setter"
     if via == "setter" and a[0] != b[0]:
         via = "ctor"
     if via == "model" and "Modality" in (a[0], b[0]):
